@@ -141,7 +141,7 @@ theorem to_znx64_constructor_matches_library :
     (toZnx64Bounds.all fun nb =>
       (Gen.Dispatch.rows.filter fun r => r.1 == nb.1).all fun r =>
         r.2.2.2.all fun lg =>
-          (initToZnx64 (2 ^ lg) D_ONE nb.2 (avx2UnderMask r.2.1)).map variantKernel == some r.2.2.1) = true ∧
+          (initToZnx64 (2 ^ lg) (pow2 2) nb.2 (avx2UnderMask r.2.1)).map variantKernel == some r.2.2.1) = true ∧   -- divisor 4.0, as tools/gen_dispatch.py calls it
     (toZnx64Bounds.all fun nb =>
       (Gen.Dispatch.rows.any fun r => r.1 == nb.1 && r.2.2.1 == "reim_to_znx64_ref") &&
       (Gen.Dispatch.rows.any fun r => r.1 == nb.1 && r.2.2.1 != "reim_to_znx64_ref" && r.2.2.2.length ≥ 14)) = true := by
